@@ -1,0 +1,5 @@
+//go:build !verif
+
+package gcsemu
+
+func verifPoint(string, ...interface{}) {}
